@@ -9,6 +9,34 @@ VERIF = Path(__file__).resolve().parent.parent
 
 # id -> (category, technique, level text, level note, design ref)
 CHECKS = {
+    "C09": (
+        "exploration",
+        "reference-model monitor: harness's own Businger-Dyer functions, log-law, similarity diffusivities and exp-mapped grid evaluated next to every observed vertical_profiles / psi / phi call; quadrature oracle for psi",
+        "Seeded random sampling (640 quick / 12 800 thorough draws) over closures MOST/MOSTM/CONSTANT/OAAHOC, ustar and z0 forcing, both stabilities to the neutral limit, n=1..64, Prandtl numbers, default and non-default domain_height/stretch; exact formulas compared to 1e-10..1e-12 plus the ustar->z0->ustar round trip; psi against scipy quadrature, continuity at 0 and the reference model's copies.",
+        "Trusted: the similarity formulas written in vlib/gen.py and the check; scipy.integrate.quad. Round-trip and top-node tolerances include the documented rounding amplification of the exp-map.",
+        "DESIGN.md section 4, C09",
+    ),
+    "C18": (
+        "exploration",
+        "reference-model monitor: the in-memory result set is the model; every (time, tower, level) slice, coordinate and label read back from the file, positionally and through .sel, is compared bit for bit; self-identifying serial-number fields",
+        "Synthetic result sets over towers 1-4 x steps 1-4 x 2-D/3-D x value classes (denormals, 1e+-300, zeros, -0.0, float32, serial numbers) x str/int timestamps x ustar/z0 forcing x homogeneous/heterogeneous level heights, plus sets produced by run_bldfm_multitower; bitwise comparison of fields, exact comparison of coordinates, labels, tower metadata, met values, global attributes.",
+        "Trusted: xarray/netCDF4 as the reader used by load_footprints_from_netcdf; result dicts keyed in configuration order (what every driver returns).",
+        "DESIGN.md section 4, C18",
+    ),
+    "C19": (
+        "exploration",
+        "reference-model monitor: Kormann & Meixner (2001) eqs. 9, 11, 18-21, 31-36 re-evaluated with an own rotation next to every observed estimateFootprint call; relation monitors for int/float parity, symmetry, rot90, mass vs incomplete gamma, estimateZ0 inversion and rotation invariance",
+        "Seeded random physically consistent parameter sets (200 quick / 2400 thorough), each exercised by ~35 monitored calls: cell-by-cell closed form (1e-10), integer parity in every scalar position and three integer types, sign/downwind/symmetry, wd+90k == rot90, mass residual law at four resolutions on the footprint's own scale, estimateZ0 log-law inversion and invariance under integer rotations.",
+        "Trusted: scipy.special gamma/gammaincc; the paper's equations as transcribed in the check; mass thresholds are calibrated constants with a 3x margin.",
+        "DESIGN.md section 4, C19",
+    ),
+    "C20": (
+        "exploration",
+        "reference-model monitor: O(n^2) brute-force evaluation of the definition (exact rational arithmetic for the percentile search) next to every observed get_source_area / extract_percentile_contour call; metamorphic relations (monotone transform, permutation, scaling, monotonicity in p)",
+        "Seeded random fields (ties, zeros, sparse, 1e+-200 magnitudes, solver footprints) x the five built-in base functions and random bases (with and without ties) x 2-D/3-D inputs x 1-D/2-D coordinates x p in (0,1] incl. 1.0 and 1e-9: 240 quick / 3200 thorough cases, ~30 monitored calls each; exact comparison outside an explicit rounding band.",
+        "Trusted: Python Fraction/fsum arithmetic; the rounding-band width 8*n ulp.",
+        "DESIGN.md section 4, C20",
+    ),
     "C16": (
         "exploration",
         "reference-model monitor: executable model of the met-forcing semantics evaluated next to the real code on the complete pattern space; recording stubs on the real drivers count iterations",
